@@ -133,12 +133,38 @@ pub fn long_with_intruder() -> BoxedStrategy<Vec<u8>> {
         .boxed()
 }
 
+/// Inputs made of a few RUNS of one class each, with run lengths at the sizes a chunked / vectorised / word-wise
+/// classifier works in (1..9, and 2^k - 1, 2^k, 2^k + 1 for 16..4096, plus generated lengths): e.g. digits, then
+/// exactly 256 bytes outside the 45-set, then a few alphanumeric characters. Content per run is one repeated byte or
+/// generated bytes of the class.
+pub fn class_runs() -> BoxedStrategy<Vec<u8>> {
+    let run_len = prop_oneof![
+        3 => 1usize..10,
+        6 => (4u32..=12, 0usize..3).prop_map(|(k, d)| (1usize << k) + d - 1),
+        2 => 10usize..700,
+    ];
+    let run = (0usize..3, run_len, any::<bool>()).prop_flat_map(|(class, len, constant)| {
+        if constant {
+            class_byte(class).prop_map(move |b| vec![b; len]).boxed()
+        } else {
+            vec(class_byte(class), len).boxed()
+        }
+    });
+    vec(run, 1..5)
+        .prop_map(|runs| {
+            let mut s: Vec<u8> = runs.concat();
+            s.truncate(7200);
+            s
+        })
+        .boxed()
+}
+
 pub fn run(e: &'static Engine) {
     e.set_rule(
         "Exhaustive: all 256 strings of length 1 and all 65 536 strings of length 2; all 3^k class patterns (digit / alnum-only / \
          other) for k = 3..8 with generated representatives per class incl. the boundary bytes / : @ [ ` a z , 0x7f 0x80 0xff; all \
          256 byte values at every position of context strings of length 3..16 (all-digit, all-alnum, mixed). Generated: long strings \
-         (100..2900) of one class with a generated intruder byte at a generated position. Oracle: reference classifier written \
+         (100..7200) of one class with a generated intruder byte at a generated position; 1..4 runs of one class each with run lengths 1..9, 2^k-1 / 2^k / 2^k+1 (k = 4..12) and generated, constant or varied content; realistic payloads. Oracle: reference classifier written \
          from the 45-character list; QRCode.mode == oracle == mode indicator decoded from the symbol; no panic, no rejection, \
          round trip returns the input. Non-trivial: >= 2 classes present or a boundary byte present; distinct by content.",
     );
@@ -259,6 +285,21 @@ pub fn run(e: &'static Engine) {
             jc.run_prop(2 << 50, &strat, total / shards, to_json, |c, o| {
                 o.label("part:realistic_payloads");
                 o.sample("realistic", || to_json(c));
+                check(c, o)
+            });
+        }));
+    }
+    e.par(jobs);
+    // runs of one class each with lengths at chunk / word sizes
+    let total: u32 = e.tier.pick(16000, 192000);
+    let shards = e.tier.pick(32u32, 96);
+    let mut jobs: Vec<Job> = Vec::new();
+    for _ in 0..shards {
+        jobs.push(Box::new(move |jc: &mut JobCtx| {
+            let strat = class_runs();
+            jc.run_prop(3 << 50, &strat, total / shards, to_json, |c, o| {
+                o.label("part:class_runs");
+                o.sample("class_runs", || to_json(c));
                 check(c, o)
             });
         }));
